@@ -250,16 +250,31 @@ def td_us(td):
     raise Unsupported(f"timedelta expected, got {type(td).__name__}")
 
 
+def _real_tz_call(tz, name, dt):
+    """utcoffset / tzname of a real tzinfo object for a (possibly symbolic) value: python-level tzinfo classes of the
+    library / harnesses are executed (instrumented) with the value itself, so zones whose offset depends on the date work"""
+    cls = type(tz)
+    f = None
+    for b in cls.__mro__:
+        if name in vars(b):
+            f = vars(b)[name]
+            break
+    import types as _t
+    if isinstance(f, _t.FunctionType) and rt._is_ofx(f) and isinstance(dt, Sym):
+        return rt.call(_t.MethodType(f, tz), dt)
+    return getattr(tz, name)(None)
+
+
 def tz_offset_us(tz, dt=None):
     """utc offset in µs as a z3 term, or None for naive"""
     if tz is None:
         return None
     if isinstance(tz, SymTz):
         return tz.off_min * 60 * US
-    off = tz.utcoffset(None)
+    off = _real_tz_call(tz, "utcoffset", dt)
     if off is None:
         return None
-    return z3.IntVal(off // datetime.timedelta(microseconds=1))
+    return td_us(off)
 
 
 def dt_epoch(v):
@@ -273,7 +288,7 @@ def dt_tz(v):
 
 
 def utc_epoch(v):
-    off = tz_offset_us(dt_tz(v))
+    off = tz_offset_us(dt_tz(v), v)
     if off is None:
         return None
     return dt_epoch(v) - off
@@ -390,7 +405,7 @@ def _utcoffset(v):
         return None
     if isinstance(tz, SymTz):
         return SymTD(tz.off_min * 60 * US, tz.off_min)
-    return tz.utcoffset(None)
+    return _real_tz_call(tz, "utcoffset", v)
 
 
 def _tzname(v):
@@ -399,7 +414,7 @@ def _tzname(v):
         return None
     if isinstance(tz, SymTz):
         return tz.name
-    return rt.call(tz.tzname, None)
+    return _real_tz_call(tz, "tzname", v)
 
 
 def _dt_replace(v, **kw):
